@@ -206,7 +206,7 @@ package pcs
 
 //@ func TCBBundle.verifyQEIdentity
 //@   props C18
-//@   requires bnd != nil && policy != nil
+//@   requires bnd != nil && policy != nil && qe != nil
 //@   defines (err == nil) == ufb("qeIdentityOK", bnd, teeType, ts, pk, policy, qe)
 //@   ensures err == nil ==> GSigTrue == old(GSigTrue) + 1
 //@   ensures GSigTrue >= old(GSigTrue) && GSigTrue <= old(GSigTrue) + 1
@@ -220,7 +220,7 @@ package pcs
 
 //@ func TCBBundle.Verify
 //@   props C18
-//@   requires bnd != nil && policy != nil
+//@   requires bnd != nil && policy != nil && qe != nil
 //@   ensures-local err == nil ==> pk != nil && ufb("qeIdentityOK", bnd, teeType, ts, pk, policy, qe) && ufb("tcbInfoOK", bnd, teeType, ts, pk, policy, fmspc, sgxCompSvn, tdxCompSvn, pcesvn)
 //@   ensures err == nil ==> GSigTrue == old(GSigTrue) + 2
 //@   ensures GSigTrue >= old(GSigTrue) && GSigTrue <= old(GSigTrue) + 2
